@@ -199,4 +199,61 @@ def STR_escape(e):
     consumed = z3.If(is_u, z3.If(hi_sur, BV(12, 64), BV(6, 64)), BV(2, 64))
     outlen = z3.If(is_u, ulen, BV(1, 64))
     out = [z3.If(is_u, ub[0], simple_out)] + [ub[i] for i in range(1, 4)]
-    return {"ok": ok, "dontcare": dontcare, "consumed": consumed, "outlen": outlen, "out": out, "is_u": is_u}
+    return {"ok": ok, "dontcare": dontcare, "consumed": consumed, "outlen": outlen, "out": out, "is_u": is_u,
+            "ok1": ok1, "hi_sur": hi_sur}
+
+
+def first_event(W, n=32):
+    """first index i < n with W[i] in {quote, backslash}: (has_event Bool, index as 64-bit term)"""
+    ev = BV(0, 64)
+    has = z3.BoolVal(False)
+    for i in reversed(range(n)):
+        hit = z3.Or(W[i] == 0x22, W[i] == 0x5C)
+        ev = z3.If(hit, BV(i, 64), ev)
+        has = z3.Or(hit, has)
+    return has, ev
+
+
+# ---- concrete REF-STR over a whole string (expectation for native replays) ----------------------------------------
+
+def str_py(buf):
+    """returns (status, str_len, out): status in accept / reject / dontcare / unterminated"""
+    HEX = b"0123456789abcdefABCDEF"
+    c = 0
+    out = bytearray()
+    n = len(buf)
+    while c < n:
+        b = buf[c]
+        if b == 0x22:
+            return "accept", c, bytes(out)
+        if b != 0x5C:
+            out.append(b)
+            c += 1
+            continue
+        e = buf[c + 1] if c + 1 < n else 0
+        if e in ESC:
+            out.append(ESC[e])
+            c += 2
+            continue
+        if e != 0x75:
+            return "reject", c, bytes(out)
+        h4 = buf[c + 2:c + 6]
+        if len(h4) < 4 or any(x not in HEX for x in h4):
+            return "reject", c, bytes(out)
+        h = int(h4.decode(), 16)
+        if 0xDC00 <= h <= 0xDFFF:
+            return "dontcare", c, bytes(out)
+        if 0xD800 <= h <= 0xDBFF:
+            l4 = buf[c + 8:c + 12]
+            if buf[c + 6:c + 8] != b"\\u" or len(l4) < 4 or any(x not in HEX for x in l4):
+                return "dontcare", c, bytes(out)
+            l = int(l4.decode(), 16)
+            if not (0xDC00 <= l <= 0xDFFF):
+                return "dontcare", c, bytes(out)
+            cp = 0x10000 + ((h - 0xD800) << 10) + (l - 0xDC00)
+            out += chr(cp).encode("utf-8")
+            c += 12
+            continue
+        out += chr(h).encode("utf-8")
+        c += 6
+    return "unterminated", c, bytes(out)
